@@ -21,7 +21,7 @@ func init() {
 		ID:          "C12",
 		Title:       "Boolean connectives group as written: parentheses, precedence, case, spacing",
 		Technique:   "static analysis: precedence-climbing well-formedness read from the generated parser's Go source (Precpred level vs recursive-call argument per operator) cross-checked with the rule-transition precedences decoded from the serialized ATN; listener operand-order rule; exhaustive truth tables of And/Or/Not evaluators (DECIDE); letter-fragment rule over the grammar's keyword tokens and case-folding rule for text comparisons in the listener",
-		LevelText:   "Decides the standard well-formedness conditions of an operator-precedence parser from the generated code and its ATN (AND level above OR level; the right operand of AND may not absorb a bare OR; Go literals agree with the ATN), that the listener builds left/right in source order with the matching operator and that Group is a stack no-op, the complete truth tables of the typed And/Or/Not nodes, and case-insensitivity of every keyword token and of the listener's text tests. Whitespace/redundant-parenthesis invariance beyond 'Group is a no-op' and agreement between ZitiQl.g4 and the generated lexer are not decided (no ANTLR tool to regenerate). Added in round 9: every set predicate walks a cursor made for it (FRESHCURSOR, cross-listed). Added in round 10: the scope the symbol validator pushes is read before the current-scope field is overwritten (SCOPE). Added in round 11: no method of the parse listener evaluates a node (NOEVAL). Added in round 12: no write through a slice-element pointer after an append to the slice (STALEELEM: the tree walk).",
+		LevelText:   "Decides the standard well-formedness conditions of an operator-precedence parser from the generated code and its ATN (AND level above OR level; the right operand of AND may not absorb a bare OR; Go literals agree with the ATN), that the listener builds left/right in source order with the matching operator and that Group is a stack no-op, the complete truth tables of the typed And/Or/Not nodes, and case-insensitivity of every keyword token and of the listener's text tests. Whitespace/redundant-parenthesis invariance beyond 'Group is a no-op' and agreement between ZitiQl.g4 and the generated lexer are not decided (no ANTLR tool to regenerate). Added in round 9: every set predicate walks a cursor made for it (FRESHCURSOR, cross-listed). Added in round 10: the scope the symbol validator pushes is read before the current-scope field is overwritten (SCOPE). Added in round 11: no method of the parse listener evaluates a node (NOEVAL). Added in round 12: no write through a slice-element pointer after an append to the slice (STALEELEM: the tree walk). Added in round 13: hand-written code enters the generated parser only at the start rule, which demands EOF (ENTRY).",
 		LevelNote:   "Trusted: go/types, x/tools SSA, ANTLR runtime, ATN v4 serialization layout. KNOWN FINDING recorded: AND parses its right operand at precedence 0 (see known_findings.json).",
 		DesignRef:   "DESIGN.md C12",
 		Explanation: "Sites: the operator alternatives of (*ZitiQlParser).boolExpr; the RULE/PRECEDENCE edges of the serialized ATN; ExitAndExpr/ExitOrExpr/ExitNotExpr; BooleanLogicExprNode.TypeTransformBool; And/Or/Not EvalBool; every lexer rule of ZitiQl.g4 containing letters; every strings.Contains/ParseBool on token text in the listener.",
